@@ -21,3 +21,5 @@ def run(ctx):
     read_input(ctx, ['read.only_objects_and_arrays', 'read.one_context_per_value', 'read.break_stops_reading'])
     from ..scen_misc import titles, preset_collection
     titles(ctx); preset_collection(ctx)
+    from ..conform import conformance
+    conformance(ctx, ['pipeline'])      # the references the obligations are stated against, compared with jawk::go on concrete runs (validates the oracles; never decides)
